@@ -264,6 +264,8 @@ def source_balance(net, V, tol=1e-6):
         S[n] += complex(ld["p"] + ld["ip"] * v + ld["yp"] * v * v, ld["q"] + ld["iq"] * v - ld["yq"] * v * v)
         if ld["ip"] or ld["iq"] or ld["yp"] or ld["yq"]:
             zip_buses.add(n)
+        if not (0.85 <= v <= 1.15):
+            zip_buses.add(n)             # the library documents that a constant-power load becomes an impedance outside its voltage band
     pg = {}
     vs = {}
     for g in net["gens"]:
